@@ -30,12 +30,21 @@ def credential_parts_local(b):
 
 
 def part_index(b, sl, parts_local):
-    """Constant index K if the slice reads parts[K] (exactly one Index::index on parts_local)."""
+    """Constant index K if the slice reads parts[K]: an Index::index(parts, K) call, or a slice-pattern element
+    `(*slice)[K of n]` of parts.as_slice()."""
     idx = []
     for bi, t in sl.find_calls(r"ops::Index::index$"):
         if parts_local in b.slice_op(t["args"][0]).locals:
             idx.append(const_value(op_const(t["args"][1]) or {}))
-    return idx
+    for d in sl.assigns:
+        rv = d["stmt"]["rv"]
+        if rv["k"] == "use":
+            p = op_place(rv["op"])
+            if p is not None:
+                ci = [e for e in p["proj"] if isinstance(e, dict) and "constindex" in e]
+                if ci and not ci[0].get("from_end") and parts_local in b.slice([p["local"]]).locals:
+                    idx.append(ci[0]["constindex"])
+    return sorted(set(idx))
 
 
 @M.rule("C03-R1", "arity: IncompleteSignature iff split('/') length != 5, decided before any scope comparison")
@@ -59,7 +68,14 @@ def r1(ctx):
             if rc is None:
                 ls, rc = b.slice_op(r, int_barrier=False), const_value(op_const(b.resolve_copy(l)) or {})
             lens = ls.find_calls(r"Vec::<T, A>::len$|slice::<impl \[T\]>::len$")
-            if lens and parts in b.slice_op(lens[0][1]["args"][0]).locals:
+            is_len = bool(lens and parts in b.slice_op(lens[0][1]["args"][0]).locals)
+            if not is_len:
+                # slice pattern: PtrMetadata(parts.as_slice())
+                for d_ in ls.assigns:
+                    rv_ = d_["stmt"]["rv"]
+                    if rv_["k"] == "unop" and rv_["op"] == "PtrMetadata" and parts in b.slice_op(rv_["x"]).locals:
+                        is_len = True
+            if is_len:
                 unequal_edge = (c["op"] == "Ne") == bool(truth)
                 ok = (a, s, rc, unequal_edge, c["op"])
     if ok is None:
@@ -131,7 +147,7 @@ def r2(ctx):
             good, want = False, "a scope element (index 1-4)"
         # the credential part is compared as it is: no trimming / case folding between credential() and the comparison
         part_sl = s0 if i0 else s1
-        PASSIVE = r"(SigV4Authenticator::credential|str>::split|Iterator::collect|ops::Index::index|ops::Deref::deref|AsRef::as_ref|String::as_str)$"
+        PASSIVE = r"(SigV4Authenticator::credential|str>::split|Iterator::collect|ops::Index::index|ops::Deref::deref|AsRef::as_ref|String::as_str|Vec::<T, A>::as_slice)$"
         active = [c for c in part_sl.callee_names() if not re.search(PASSIVE, c)]
         if active:
             good = False
